@@ -37,12 +37,13 @@ def parse_race_reports(paths):
             txt = open(p, errors="replace").read()
         except OSError:
             continue
+        pid = p.rsplit(".", 1)[-1]
         for block in txt.split("WARNING: DATA RACE")[1:]:
             block = block.split("==================")[0]
             m = re.search(r"^\s+" + re.escape(MOD) + r"([A-Za-z0-9_./*()\[\]]+?)\(\)\s*$", block, re.M)
             func = m.group(1) if m else "unknown"
             func = re.sub(r"\[\.\.\.\]", "", func)
-            out.append(dict(func=func, text="WARNING: DATA RACE" + block[:3000]))
+            out.append(dict(func=func, text="WARNING: DATA RACE" + block[:3000], pid=pid))
     # one report per function is enough, and a handful in total
     seen, uniq = set(), []
     for r in out:
@@ -58,7 +59,9 @@ X_EMPTY_PAGED = "boltz.BaseStore.QueryIdsC/empty-filter-with-own-paging"
 X_DOTTED = "boltz.BaseStore.QueryIds/dotted-symbols-and-subqueries"
 X_EXT = "boltz.ExternalSymbol/filters-and-sorts-at-every-place"
 X_IDX = "boltz.indexes/reads-of-different-keys-at-every-base-path-depth"
+X_SHARED = "boltz.indexes/concurrent-readers-sharing-their-argument-slices"
 RACE_HINTS = [
+    (("FindMatching", "IteratorMatching"), X_SHARED),
     (("ExternalSymbol", "FuncSymbol"), X_EXT),
     (("setIndex", "uniqueIndex", "fkIndex", "linkCollectionImpl", "LinkedSetSymbol", "Indexer"), X_IDX),
     (("compositeEntity", "stackedCursor", "EntitySetSymbol", "entitySetSymbol", "GetSymbol"), X_DOTTED),
@@ -66,8 +69,13 @@ RACE_HINTS = [
 ]
 
 
+COLD_PIDS = {}   # pid of a cold-start child -> its "C <variant> <workers>" line
+
+
 def race_replay_case(r, cases, run_case):
     """the smallest case that re-runs the code a race report is about"""
+    if r.get("pid") in COLD_PIDS:   # reported by a cold-start child (c18_s9b.go): the replay is that cold start
+        return COLD_PIDS[r["pid"]]
     for x in cases:
         if x.startswith("X ") and "/" not in x and x[2:].split(".")[-1] in r["func"]:
             return x
@@ -140,7 +148,7 @@ def main(argv):
         "translators/access (Go, go/packages): reading of the Go AST/types; its rules for write / synchronised / call graph (design/C18.md)",
         "the Go memory model and the race detector: a data race is not expressible in Gallina; the theorem is about the access table, the -race run supplies schedules",
         "extraction (ExtrOcamlBasic only) + extraction/c18_driver.ml + drv_common.ml",
-        "Go harness cmd/storageharness/c18.go, c18_s2.go, c18_s3.go, c18_s6.go, c17_stores.go and this comparison",
+        "Go harness cmd/storageharness/c18.go, c18_s2.go, c18_s3.go, c18_s6.go, c18_s9.go, c18_s9b.go, c17_stores.go and this comparison",
         "Db/RwLock.v (the reload-lock system of C17: sync.RWMutex by its specification, writer preference) and the translator's rules for lock_table / view_table (translators/access/locks.go)",
     ]
     c.assumptions = [
@@ -177,6 +185,8 @@ def main(argv):
     else:
         args = [harness, "c18", "--seed", str(c.seed), "--tier", c.tier, "--out", c.work]
     rc, out = vlib.run(args, timeout=1500 if c.thorough else 300, env=env)
+    for ln in vlib.read_lines(os.path.join(c.work, "cold_pids.txt")) if os.path.exists(os.path.join(c.work, "cold_pids.txt")) else []:
+        COLD_PIDS[ln.split()[0]] = ln.split(" ", 1)[1]
     races = parse_race_reports(glob.glob(race_prefix + ".*"))
     if "WARNING: DATA RACE" in out:
         races += parse_race_reports([])  # reports normally go to log_path; stderr only when the log could not be opened
@@ -422,9 +432,30 @@ def main(argv):
                 c.violation("C18:concurrent-%s-differs" % ("parse" if kind == "P" else "symbol"),
                             "%s gave a different answer under concurrency than sequentially: %s" % ("ast.Parse" if kind == "P" else "GetSymbol", i[:300]),
                             dict(case=case, impl=i, input=bytes.fromhex(arg).decode("utf-8", "replace") if arg != "-" else ""))
+        elif kind == "C":
+            # ninth strengthening (c18_s9b.go): a fresh process whose FIRST parses / symbol lookups / queries are concurrent
+            distinct.add(case)
+            f = case.split()
+            what = "a fresh process (the harness started again, sub-command c18cold) whose first %s calls - ast.Parse, GetSymbol, QueryIds, one per goroutine behind a start barrier - are concurrent" % f[2]
+            if i.startswith("C differs"):
+                c.violation("C18:cold-start-answer-differs", "%s: %s" % (what, unhex(i.split()[2])[:500]), dict(case=case, impl=i))
+            elif i.startswith("C died"):
+                err = unhex(i.split()[3]) if len(i.split()) > 3 else ""
+                fatal = re.search(r"fatal error: (concurrent map [a-z ]+)", err)
+                c.violation("C18:cold-start-" + ("concurrent-map-access" if fatal else "died"), "%s died (%s): %s" % (what, i.split()[1], err[:400]), dict(case=case, impl=i, log=err))
+            elif i.startswith("C race") and not any(r.get("pid") in COLD_PIDS for r in races):
+                # normally the child's report is in the log directory and reported below with its function
+                c.violation("C18:data-race:cold-start", "%s: the race detector reported a data race: %s" % (what, unhex(i.split()[2])[:600] if len(i.split()) > 2 else ""), dict(case=case, impl=i))
+            elif i != m and not i.startswith("C race"):
+                c.violation("C18:harness-run", "cold start: %s" % i[:300], dict(correspondence="cold start sub-process", case=case, impl=i), no_input=True)
         elif kind == "X":
             distinct.add(case)
-            if i != m:
+            if i != m and "first: argument-changed" in i:
+                # ninth strengthening (c18_s9.go): a read wrote to memory its caller owns and shares between readers
+                c.violation("C18:read-writes-caller-argument",
+                            "a read helper wrote to the argument it was given, which concurrent read transactions of the same caller share (%s rounds wrong): %s"
+                            % (i.split()[2], i.split("first: ", 1)[1][:400]), dict(case=case, impl=i))
+            elif i != m:
                 c.violation("C18:helper-wrong-under-concurrency", "%s answered wrongly when called from many goroutines: %s" % (case[2:], i), dict(case=case, impl=i))
     for r in races:
         c.violation("C18:data-race:" + r["func"], "the race detector reported a data race in %s" % r["func"],
@@ -448,6 +479,7 @@ def main(argv):
     c.cov["kept_values"] = kept
     c.cov["looks_after_uncommitted_transactions"] = probes
     c.cov["joined_transaction_scenarios"] = len([x for x in cases if x.startswith("D ")])
+    c.cov["cold_starts"] = len([x for x in cases if x.startswith("C ")])
     try:
         c.cov["input_distribution"] = json.load(open(os.path.join(c.work, "stats.json")))
     except Exception:
